@@ -1,5 +1,36 @@
-(* C04 - placeholder until ConcInv.v is delivered *)
-From LC Require Import Conc.
-Theorem C04_model_initial_state_idle : forall hp rc arrs t, thr (ginit hp rc arrs) t = Idle.
-Proof. reflexivity. Qed.
-Print Assumptions C04_model_initial_state_idle.
+(* C04 - every operation terminates and leaves no lock behind: the protocol statements.
+   lock_order + progress: no reachable state of any finite set of threads is a deadlock.
+   idle_holds_nothing: an operation that has returned (state Idle, or any state before its first
+   acquisition) owns no lock; only a thread in AH (an active locked_table) keeps ownership.
+   PARTIAL: termination under fair scheduling is not proved; [progress] excludes deadlock but not an
+   unbounded sequence of mutually invalidated retries (DESIGN 6.4).  Bounded bodies: see
+   InsertLemmas.slot_search_fuel_enough / cuckoopath_search_shape (BFS dequeues and path length).
+   Statements only; closed by [exact] of lemmas of ConcInv.v. *)
+From Coq Require Import NArith List.
+From LC Require Import Conc ConcInv.
+Import ListNotations.
+
+Theorem C04_lock_order : forall hp0 rc0 arrs0, arrs_ok arrs0 -> forall s, reachable hp0 rc0 arrs0 s ->
+  forall t a l a' l', waiting_for (sh_ s) (thr s t) = Some (a, l) -> holds_lock (sh_ s) (thr s t) a' l' ->
+  a' < a \/ (a' = a /\ l' < l).
+Proof. exact lock_order. Qed.
+Print Assumptions C04_lock_order.
+
+Theorem C04_no_deadlock : forall hp0 rc0 arrs0 s n, arrs_ok arrs0 -> reachable hp0 rc0 arrs0 s ->
+  (forall t, n <= t -> thr s t = Idle) -> (exists t, thr s t <> Idle) ->
+  exists t lb s', t < n /\ thr s t <> Idle /\ gstep s t lb = Some s'.
+Proof. exact progress. Qed.
+Print Assumptions C04_no_deadlock.
+
+Theorem C04_returned_operation_holds_no_lock : forall hp0 rc0 arrs0, arrs_ok arrs0 -> forall s, reachable hp0 rc0 arrs0 s ->
+  forall t, holds_nothing (thr s t) -> forall a l, g_held (sh_ s) a l <> Some t.
+Proof. exact idle_holds_nothing. Qed.
+Print Assumptions C04_returned_operation_holds_no_lock.
+
+(* a locked_table (state AH) owns every lock of every array from its first one on, including arrays
+   created while it was active *)
+Theorem C04_locked_table_owns_everything : forall hp0 rc0 arrs0, arrs_ok arrs0 -> forall s, reachable hp0 rc0 arrs0 s ->
+  forall t first d, thr s t = AH first d ->
+  d = g_dirty (sh_ s) /\ first + 1 <= g_narr0 (sh_ s) /\ g_narr0 (sh_ s) <= narr (sh_ s) /\ (forall a l, first <= a -> a < narr (sh_ s) -> l < asz (sh_ s) a -> g_held (sh_ s) a l = Some t).
+Proof. exact all_holder_facts. Qed.
+Print Assumptions C04_locked_table_owns_everything.
